@@ -130,6 +130,9 @@ type GenOpts struct {
 	Yields      int
 	Parallelism bool // prefer wide shapes
 	Handlers    bool
+	AllowDupKeys    bool // do not remove fan-ins whose sources carry equal map keys
+	AllowMissingKey bool // nested workflows may map a key their input lacks
+	ForceLoop       bool // Pregel: guarantee a cycle that the branch scripts keep taking
 }
 
 type gen struct {
@@ -289,6 +292,10 @@ func (g *gen) shape(p *Plan) {
 			b := t.Plan(a + 1)
 			addEdge(a, b)
 		}
+	}
+	if p.Mode == ModePregel && g.o.ForceLoop && p.Depth == 0 {
+		a := t.Plan(n)
+		addEdge(a, a) // a static self loop: the run can only end through END or the step limit
 	}
 	// turn some out-edge groups into branches
 	froms := []int{-1}
@@ -518,7 +525,7 @@ func (g *gen) fixWorkflow(p *Plan) {
 			// MapFields needs the key to exist in the source's output: lambdas always emit their
 			// own key, the top-level input always has "in"; the input of a nested plan may lack it
 			// (Invoke then fails, Stream tolerates it: kept out of these workloads, see DESIGN 10)
-			simple := (e.From == "start" && p.Depth == 0) || (src != nil && src.Kind == KLambda)
+			simple := (e.From == "start" && (p.Depth == 0 || g.o.AllowMissingKey)) || (src != nil && src.Kind == KLambda)
 			switch {
 			case nData == 1 && t.PlanBool(30):
 				e.Map = MapWhole
@@ -642,7 +649,7 @@ func (p *Plan) endKeys(startKeys map[string]bool) map[string]bool {
 // fixKeys removes fan-ins whose sources could carry the same map key (the meaning of such
 // a merge is not fixed by the properties): offending pass-through nodes become lambdas.
 func (g *gen) fixKeys(p *Plan) {
-	if p.Mode == ModeWorkflow {
+	if p.Mode == ModeWorkflow || g.o.AllowDupKeys {
 		return
 	}
 	for iter := 0; iter < 10; iter++ {
